@@ -242,3 +242,87 @@ fn run_worker_mode(ctx: &Ctx, mode: &str, name: &str, crash_sig: &str, report: &
 		));
 	}
 }
+
+/// Crash mode (`Ctx::crash_mode`): run the random driver of the tape check `name` with the given budget in a child.
+/// A child that dies is replaced by a `Failure` naming the in-flight case that kills a fresh child on its own; `None`
+/// if the check is not in the registry (the caller then runs it in-process).
+pub fn random_in_child(ctx: &Ctx, name: &str, quick_total: u32, factor: u32, tape_len: usize) -> Option<Outcome> {
+	if !crate::registry::tape_checks(ctx).iter().any(|(n, _)| *n == name) {
+		return None;
+	}
+	let mut child = Command::new(self_exe())
+		.args(["--worker-random-b", ctx.property, ctx.tier_name(), name, &quick_total.to_string(), &factor.to_string(), &tape_len.to_string()])
+		.env_remove("PSC_VERIF_CRASH_MODE")
+		.stdout(Stdio::piped())
+		.stderr(Stdio::piped())
+		.spawn()
+		.ok()?;
+	let stdout = child.stdout.take().unwrap();
+	let stderr = child.stderr.take().unwrap();
+	let err_thread = std::thread::spawn(move || {
+		let mut lines: Vec<String> = vec![];
+		for l in BufReader::new(stderr).lines().map_while(Result::ok) {
+			lines.push(l);
+			if lines.len() > 50 {
+				lines.remove(0);
+			}
+		}
+		lines
+	});
+	let mut last: BTreeMap<String, String> = BTreeMap::new();
+	let mut done = false;
+	let mut outcome = Outcome { stats: Stats::default(), failures: vec![], broken: None };
+	for line in BufReader::new(stdout).lines().map_while(Result::ok) {
+		if let Some(rest) = line.strip_prefix("B ") {
+			if let Some((tid, tape)) = rest.split_once(' ') {
+				last.insert(tid.to_string(), tape.to_string());
+			}
+		} else if let Some(j) = line.strip_prefix("S ") {
+			if let Ok(v) = serde_json::from_str::<Value>(j) {
+				outcome.stats = Stats::from_json(&v);
+			}
+		} else if let Some(j) = line.strip_prefix("F ") {
+			if let Ok(v) = serde_json::from_str::<Value>(j) {
+				outcome.failures.push(Failure {
+					tape: unhex(v["tape"].as_str().unwrap_or("")),
+					violation: Violation::new(v["sig"].as_str().unwrap_or("?"), v["detail"].as_str().unwrap_or("")),
+				});
+			}
+		} else if let Some(j) = line.strip_prefix("X ") {
+			outcome.broken = Some(j.to_string());
+		} else if line == "D" {
+			done = true;
+		}
+	}
+	let status = child.wait();
+	let err_lines = err_thread.join().unwrap_or_default();
+	if done && status.as_ref().map(|s| s.success()).unwrap_or(false) {
+		return Some(outcome);
+	}
+	for (_tid, tape_hex) in last {
+		let tape = unhex(&tape_hex);
+		match run_tape_in_child(ctx, name, &tape, &[]) {
+			TapeRun::Died(how) => {
+				outcome.failures.push(Failure {
+					tape,
+					violation: Violation::new(
+						format!("{}/crash/{name}", ctx.property),
+						format!("the process dies on this case (reproduced alone in a fresh process): {how}"),
+					),
+				});
+				return Some(outcome);
+			},
+			TapeRun::Viol(v) => {
+				outcome.failures.push(Failure { tape, violation: v });
+				return Some(outcome);
+			},
+			_ => {},
+		}
+	}
+	outcome.broken = Some(format!(
+		"{name}: worker died ({:?}) and no in-flight case reproduces the crash alone; stderr tail: {}",
+		status.map(|s| s.to_string()),
+		err_lines.iter().rev().take(5).cloned().collect::<Vec<_>>().join(" | ")
+	));
+	Some(outcome)
+}
